@@ -49,7 +49,10 @@ class History:
             async_handlers=False,
             always_connect=rng.random() < 0.5,
             namespaces_opt=namespaces_opt,
-            coroutines=rng.random() < 0.7, connect_script={})
+            coroutines=rng.random() < 0.7, connect_script={},
+            connect_signature={ns: rng.choice(['optional', 'optional',
+                                               'required'])
+                               for ns in handler_ns})
         self.pool = pool
         self.handler_ns = set(handler_ns)
         self.listed = set(listed)
@@ -72,7 +75,7 @@ class History:
         w = {'case_index': self.index, 'kind': self.kind,
              'config': {k: self.cfg[k] for k in (
                  'serializer', 'served', 'style', 'always_connect',
-                 'namespaces_opt', 'coroutines')},
+                 'namespaces_opt', 'coroutines', 'connect_signature')},
              'history': self.ops[-25:], 'failing_op': res.get('op'),
              'sent': {str(k): v for k, v in res.get('sent', {}).items()},
              'events': res.get('events'), 'exc': res.get('exc'),
